@@ -302,6 +302,29 @@ func (c *Ctx) rulesC20() {
 		}
 		c.check(good, "C20.uniq", "pkg/machine:S.Add delegates to SAdd/slicesUniq", f.Pos(), "the union must be de-duplicated")
 	}
+	// one-sided inclusion is not equality
+	if f := c.fnOpt("pkg/machine:StatesEqual"); f != nil {
+		type pair struct{ a, b ssa.Value }
+		var calls []pair
+		for _, b := range f.Blocks {
+			for _, ins := range b.Instrs {
+				if call, ok := ins.(*ssa.Call); ok && calleeName(&call.Call) == "slicesEvery" && len(call.Call.Args) == 2 {
+					calls = append(calls, pair{stripConv(call.Call.Args[0]), stripConv(call.Call.Args[1])})
+				}
+			}
+		}
+		if len(calls) > 0 {
+			sym := false
+			for _, p := range calls {
+				for _, q := range calls {
+					if p.a == q.b && p.b == q.a && p.a != p.b {
+						sym = true
+					}
+				}
+			}
+			c.check(sym, "C20.uniq", "pkg/machine:StatesEqual checks inclusion in both directions", f.Pos(), "set equality tested with slicesEvery in one direction only: lists with duplicates compare equal/unequal wrongly and the relation is not symmetric")
+		}
+	}
 	// S.Sub/Shared/Equal delegate with the receiver first
 	for name, callee := range map[string]string{"Sub": "StatesDiff", "Shared": "StatesShared", "Equal": "StatesEqual"} {
 		f := c.fnOpt("pkg/machine:S." + name)
